@@ -193,7 +193,9 @@ class CirculationPump(BranchWOInternalsComponent):
         from_nodes = get_from_nodes_corrected(branch_pit[f:t])
         t_from = node_pit[from_nodes, TINIT]
         tout = branch_pit[f:t, TOUTINIT]
-        res_table['deltat_k'].values[:] = t_from - tout
+        # only circulation pumps that take part in the calculation report results
+        connected = get_lookup(net, "branch", "active_hydraulics")[f:t]
+        res_table['deltat_k'].values[connected] = (t_from - tout)[connected]
 
         fluid = get_fluid(net)
 
